@@ -497,6 +497,10 @@ inductive PartOutcome where
   | silentAfter (k : Nat)   -- delivers k rows, then hangs (slower than the leader's timer)
   | retryAfter (k : Nat)    -- delivers k rows, returns a common.Retriable error; the partition
                             -- goroutine `continue`s with the next handler, which delivers everything
+  /-- a remote handler (rpc/server HandleRemoteQueries) whose stream ended — EOF because the
+      follower closed its send side, or a reset — after the field list and k rows, WITHOUT the
+      end-of-results message: "Unable to receive result", not retriable once something arrived -/
+  | eofAfter (k : Nat)
 deriving Repr, DecidableEq
 
 structure Part where
@@ -515,6 +519,7 @@ def Part.script (pt : Part) : List Row :=
   | .failAfter k => pt.rows.take k
   | .silentAfter k => pt.rows.take k
   | .retryAfter k => pt.rows.take k ++ pt.rows
+  | .eofAfter k => pt.rows.take k
 
 /-- `some e` = the final result `&remoteResult{err: e}`; `none` = never sent -/
 def Part.finalErr (pt : Part) : Option (Option Err) :=
@@ -524,6 +529,24 @@ def Part.finalErr (pt : Part) : Option (Option Err) :=
   | .failAfter _ => some (some .handler)
   | .silentAfter _ => none
   | .retryAfter _ => some none
+  | .eofAfter _ => some (some .handler)
+
+/-- One handler taken from a partition's queue by the partition goroutine of queryCluster. -/
+inductive Attempt where
+  /-- the handler's stream had already ended (or ends, or cannot be written to) before its
+      first message: HandleRemoteQueries' receive loop sees `recvErr != nil` with `first`, returns
+      a common.Retriable error, the partition goroutine `continue`s with the next handler.
+      This is the stale handler of a follower that gave up waiting (NextQueryTimeout). -/
+  | stale
+  | answer (o : PartOutcome)
+deriving Repr
+
+/-- what a partition's queue of handlers amounts to: stale handlers are passed over, the first
+    one that answers decides; an exhausted queue is `remoteQueryHandlerForPartition == nil` -/
+def effectiveOutcome : List Attempt → PartOutcome
+  | [] => .noHandler
+  | .stale :: rest => effectiveOutcome rest
+  | .answer o :: _ => o
 
 /-- what arrives at the leader's `select`, in order -/
 inductive CEvent where
